@@ -34,7 +34,8 @@ FitsU32(numeral) == Num!Less(numeral, Num!TwoPow32)
 \* shape = [kind, hasfp, vtag, vlen]; prod = [cls \in {"num", "neg", "nan", "big"}, limbs]; off = [neg, limbs]
 \* Result: [v |-> "none"] / [v |-> "some", limbs] / [v |-> "some-any"] (outside the stated domain: any value, no panic)
 ToRealValue(shape, prod, off) ==
-  IF ~(shape.kind \in {"sfp", "ufp"} /\ shape.hasfp /\ shape.vtag \in {"i", "u"} /\ shape.vlen <= 8) THEN [v |-> "none"]
+  IF ~(shape.kind \in {"sfp", "ufp"} /\ shape.hasfp /\ shape.vtag \in {"i", "u"}) THEN [v |-> "none"]
+  ELSE IF shape.vlen > 8 THEN [v |-> "some-any"]       \* a 128-bit integer on a fixed-point kind (not well formed): "an integer value" all the same - nothing is stated
   ELSE IF prod.cls # "num" THEN [v |-> "some-any"]
   ELSE IF off.neg
        THEN IF Num!Less(prod.limbs, off.limbs) THEN [v |-> "some-any"]                                \* sum negative
